@@ -17,6 +17,8 @@ RULE = ("case = random multi-task scope program (scopeprog) with 0-3 disposables
         "{ok, raise, wait on a gate}, yields none/one/several states, body outcomes return/raise/BaseException/cancelled, "
         "external schedule of gate releases and cancellations (=> all completion orders the schedule can produce); plus the "
         "exhaustive single-block family (<=2 disposables quick, <=3 thorough) x scripts x body x cancellation at every gate; "
+        "plus the 'retry' family: ONE Disposables object used for two consecutive scope entries (1-2 doubles, every "
+        "combination of enter/exit scripts per attempt and body outcomes; 364 sampled quick, all 1088 thorough); "
         "non-trivial = a block with >=2 disposables and >=1 fault (failed/interrupted enter, raising exit, failing body); "
         "distinct = by case text")
 TRUSTED = ["asyncio.gather semantics (children started once, return_exceptions) as abstracted in Haiway/Model/Disposables.lean",
@@ -24,9 +26,113 @@ TRUSTED = ["asyncio.gather semantics (children started once, return_exceptions) 
 ASSUMPTIONS = ["disposable doubles do not catch the cancellation delivered to them (an interrupted enter ends with CancelledError)",
                "the fault assignment is read off the implementation's own log (replay), the theorems cover every assignment"]
 
-run_real = sp.run_real
 shrink = sp.shrink
-mutate = sp.mutate
+
+
+def mutate(rng, case: str) -> str:
+    if '"retry"' in case:
+        return rng.choice(_RETRY) if _RETRY else case
+    return sp.mutate(rng, case)
+
+
+def run_real(case: str) -> str:
+    spec = json.loads(case)
+    if spec.get("retry"):
+        return run_retry(spec)
+    return sp.run_real(case)
+
+
+def run_retry(spec) -> str:
+    """ONE `Disposables` object used for two consecutive scope entries (the retry idiom with re-enterable pool/client
+    disposables): `prog` = [try[block 1], try[block 2]] with the same number of disposables; disposable k of block 2
+    is the *same double* as disposable k of block 1, following its second script.  Events use the ordinary grammar
+    (each attempt looks like a block of its own), so facts / model / monitor apply unchanged."""
+    from haiway import Disposables, ctx
+
+    b1, b2 = spec["prog"][0][1][0], spec["prog"][1][1][0]
+    r = sp.Run()
+    try:
+        attempt = {"n": 0}
+
+        class D:
+            def __init__(s, k):
+                s.k = k
+
+            def cur(s):
+                blk = (b1, b2)[attempt["n"]]
+                return blk[4][s.k]
+
+            async def __aenter__(s):
+                did, en, _ex, _ys = s.cur()
+                r.ev(0, "den", did)
+                if en == "raise":
+                    r.ev(0, "dened", did, "Boom")
+                    raise sp.Boom(f"den{did}")
+                r.ev(0, "dened", did, "ok")
+                return None
+
+            async def __aexit__(s, et, ev, tb):
+                did, _en, ex, _ys = s.cur()
+                r.ev(0, "dex", did, sp.out_name(ev) if et is not None else "None")
+                if ex == "raise":
+                    r.ev(0, "dexed", did, "Boom")
+                    raise sp.Boom(f"dex{did}")
+                r.ev(0, "dexed", did, "ok")
+
+        shared = Disposables(*[D(k) for k in range(len(b1[4]))])
+
+        async def main():
+            r.ev(0, "start")
+            for i, blk in enumerate((b1, b2)):
+                attempt["n"] = i
+                b, body = blk[2], blk[5]
+                r.ev(0, "pre", b, r.fingerprint())
+                body_exc = None
+                try:
+                    async with ctx.scope(f"b{b}", disposables=shared):
+                        r.ev(0, "enter", b)
+                        try:
+                            if body and body[0][0] == "raise":
+                                r.ev(0, "raise", "exc")
+                                raise sp.Boom("body")
+                        except BaseException as e:
+                            body_exc = e
+                            r.ev(0, "bodyend", b, sp.out_name(e), r.pending_cancel())
+                            raise
+                        r.ev(0, "bodyend", b, "ok", r.pending_cancel())
+                except BaseException as e:  # noqa: BLE001
+                    r.ev(0, "left", b, sp.out_name(e), 1 if e is body_exc else 0, "0")
+                    r.ev(0, "post", b, r.fingerprint())
+                    r.ev(0, "caught", sp.out_name(e))
+                    continue
+                r.ev(0, "left", b, "ok", 1, "0")
+                r.ev(0, "post", b, r.fingerprint())
+            r.ev(0, "end", "ok")
+
+        t = r.loop.create_task(main())
+        r.loop.quiesce()
+        if not t.done():
+            r.ev(0, "hang")
+        return " ".join(r.log)
+    finally:
+        r.close()
+
+
+def retry_family():
+    import itertools as it
+
+    opts = ["ok", "raise"]
+    for nd in (1, 2):
+        for scripts in it.product(it.product(opts, repeat=4), repeat=nd):   # (enter1, exit1, enter2, exit2) per disposable
+            for body1, body2 in it.product(("ok", "raise"), repeat=2):
+                d1 = [[10 * (k + 1) + 1, sc[0], sc[1], []] for k, sc in enumerate(scripts)]
+                d2 = [[10 * (k + 1) + 2, sc[2], sc[3], []] for k, sc in enumerate(scripts)]
+                prog = [["try", [["block", "async", 1, [], d1, [["raise", "exc"]] if body1 == "raise" else []]]],
+                        ["try", [["block", "async", 2, [], d2, [["raise", "exc"]] if body2 == "raise" else []]]]]
+                yield json.dumps({"prog": prog, "sched": [], "retry": True}, separators=(",", ":"))
+
+
+_RETRY = list(retry_family())
 
 
 def single_block_family(max_d):
@@ -63,6 +169,7 @@ def corpus():
 
 def generate(rng, tier):
     yield from single_block_family(2 if tier == "quick" else 3)
+    yield from (_RETRY if tier == "thorough" else _RETRY[:64] + rng.sample(_RETRY[64:], 300))
     n = 2500 if tier == "quick" else 60000
     for _ in range(n):
         yield sp.gen_case(rng, depth=rng.choice([2, 3]), p_disp=0.9, p_raise=0.1, p_fault=0.5, p_cancel=0.25)
